@@ -37,6 +37,60 @@ def tableForm (name : List Char) (nargs : Nat) : TableForm :=
   else if !name.isEmpty then .plain
   else .empty
 
+/-! #### the alias forms: `Statement.Table` after `Table(name, args...)`
+
+    `var tableRegexp = regexp.MustCompile("(?i)(?:.+? AS (\w+)\s*(?:$|,)|^\w+\s+(\w+)$)")`, consulted in the
+    expression branch only.  Go's regexp is leftmost-first; for a text WITHOUT a newline (`.` does not match `\n`) the
+    leftmost match starts at 0 and is: the smallest position e ≥ 1 at which ` AS ` (any case) + a maximal word + optional
+    white space + (end of text | `,`) follows — group 1; otherwise the whole text as `word white-space word` — group 2;
+    otherwise no match (a start position > 0 offers only a subset of the positions e).  Texts with a newline, and the
+    non-ASCII characters that fold to `s` under `(?i)` (U+017F), are outside the model (`none`). -/
+
+def isWordC (c : Char) : Bool := c.isAlphanum || c == '_'
+def isSpaceC (c : Char) : Bool := c == ' ' || c == '\t' || c == '\n' || c == '\x0c' || c == '\r'
+
+/-- ` AS (\w+)\s*(?:$|,)` at the head of `rest` -/
+def asTail (rest : List Char) : Option (List Char) :=
+  match rest with
+  | ' ' :: a :: s :: ' ' :: r =>
+    if (a == 'a' || a == 'A') && (s == 's' || s == 'S') then
+      let w := r.takeWhile isWordC
+      let r2 := (r.dropWhile isWordC).dropWhile isSpaceC
+      if !w.isEmpty && (r2.isEmpty || r2.head? == some ',') then some w else none
+    else none
+  | _ => none
+
+def scanAs : List Char → Option (List Char)
+  | [] => none
+  | c :: r => match asTail (c :: r) with
+    | some w => some w
+    | none => scanAs r
+
+/-- `^\w+\s+(\w+)$` -/
+def twoWords (s : List Char) : Option (List Char) :=
+  let r1 := s.dropWhile isWordC
+  let r2 := r1.dropWhile isSpaceC
+  let w2 := r2.takeWhile isWordC
+  if !(s.takeWhile isWordC).isEmpty && !(r1.takeWhile isSpaceC).isEmpty && !w2.isEmpty && (r2.dropWhile isWordC).isEmpty
+  then some w2 else none
+
+/-- the alias `tableRegexp` extracts: `some (some a)` alias a, `some none` no match, `none` outside the model -/
+def tableAlias (name : List Char) : Option (Option (List Char)) :=
+  if name.contains '\n' || name.contains 'ſ' then none
+  else match name with
+    | [] => some none
+    | _ :: r => match scanAs r with
+      | some w => some (some w)
+      | none => some (twoWords name)
+
+/-- `Statement.Table` after `Table(name, args...)` on a statement whose Table was `prev` -/
+def tableTarget (name : List Char) (nargs : Nat) (prev : List Char) : Option (List Char) :=
+  match tableForm name nargs with
+  | .expr => (tableAlias name).map fun a => a.getD prev
+  | .qualified => some ((name.dropWhile (· != '.')).drop 1)     -- strings.Split(name, ".")[1]
+  | .plain => some name
+  | .empty => some []
+
 section
 variable {β : Type}
 
